@@ -431,4 +431,101 @@ theorem bump_bump (r : Reason) (n : String) (c : Imports) : bump r n (bump r n c
   | nil => simp [Reason.or]
   | cons e t => simp [hor]
 
+/-! ## The output directory as an association list -/
+
+theorem dirGet_dirPut_same (d : Dir) (p : String) (b : Bytes) : dirGet (dirPut d p b) p = some b := by
+  induction d with
+  | nil => simp [dirPut, dirGet]
+  | cons e d ih =>
+    obtain ⟨q, c⟩ := e
+    by_cases h : q = p <;> simp [dirPut, dirGet, h, ih]
+
+theorem dirGet_dirPut_other (d : Dir) {p q : String} (b : Bytes) (h : p ≠ q) :
+    dirGet (dirPut d p b) q = dirGet d q := by
+  induction d with
+  | nil => simp [dirPut, dirGet, h]
+  | cons e d ih =>
+    obtain ⟨r, c⟩ := e
+    by_cases h1 : r = p
+    · subst h1; simp [dirPut, dirGet, h]
+    · by_cases h2 : r = q
+      · subst h2; simp [dirPut, dirGet, h1]
+      · simp [dirPut, dirGet, h1, h2, ih]
+
+theorem dirGet_writeFile (d : Dir) (w : Write) (q : String) :
+    dirGet (writeFile d w) q =
+      if w.path = q then
+        some (match w.mode with | .wb => w.out | .ab => (dirGet d w.path).getD [] ++ w.out)
+      else dirGet d q := by
+  by_cases h : w.path = q
+  · subst h
+    cases hm : w.mode <;> simp [writeFile, hm, dirGet_dirPut_same]
+  · cases hm : w.mode <;> simp [writeFile, hm, h, dirGet_dirPut_other _ _ h]
+
+theorem build_meets_promise_aux (p : String) (b : Bytes) :
+    ∀ (ws : List Write) (d : Dir) (acc : Option Bytes), (acc = none ∨ dirGet d p = acc) →
+      promisedFrom acc ws p = some b → dirGet (build d ws) p = some b := by
+  intro ws
+  induction ws with
+  | nil =>
+    intro d acc h hp
+    simp only [promisedFrom] at hp
+    subst hp
+    rcases h with h | h
+    · cases h
+    · simpa [build] using h
+  | cons w ws ih =>
+    intro d acc h hp
+    simp only [build, List.foldl_cons]
+    simp only [promisedFrom] at hp
+    by_cases hw : w.path = p
+    · rw [if_pos hw] at hp
+      cases hm : w.mode
+      · rw [hm] at hp
+        exact ih (writeFile d w) (some w.out) (Or.inr (by rw [dirGet_writeFile, if_pos hw, hm])) hp
+      · rw [hm] at hp
+        refine ih (writeFile d w) (acc.map (· ++ w.out)) ?_ hp
+        cases acc with
+        | none => exact Or.inl rfl
+        | some a =>
+          rcases h with h | h
+          · cases h
+          · right
+            rw [dirGet_writeFile, if_pos hw, hm, hw, h]
+            rfl
+    · rw [if_neg hw] at hp
+      exact ih (writeFile d w) acc (by rw [dirGet_writeFile, if_neg hw]; exact h) hp
+
+theorem promisedFrom_isSome (p : String) : ∀ (ws : List Write) (acc : Option Bytes),
+    (acc.isSome ∨ ∃ w ∈ ws, w.path = p ∧ w.mode = .wb) → (promisedFrom acc ws p).isSome := by
+  intro ws
+  induction ws with
+  | nil =>
+    intro acc h
+    rcases h with h | ⟨w, hw, _⟩
+    · simpa [promisedFrom] using h
+    · cases hw
+  | cons w ws ih =>
+    intro acc h
+    simp only [promisedFrom]
+    by_cases hw : w.path = p
+    · rw [if_pos hw]
+      cases hm : w.mode
+      · exact ih _ (Or.inl rfl)
+      · refine ih _ ?_
+        rcases h with h | ⟨w', hw', hp', hm'⟩
+        · left; cases acc <;> simp_all
+        · right
+          rcases List.mem_cons.mp hw' with e | e
+          · subst e; rw [hm] at hm'; cases hm'
+          · exact ⟨w', e, hp', hm'⟩
+    · rw [if_neg hw]
+      refine ih _ ?_
+      rcases h with h | ⟨w', hw', hp', hm'⟩
+      · exact Or.inl h
+      · right
+        rcases List.mem_cons.mp hw' with e | e
+        · subst e; exact absurd hp' hw
+        · exact ⟨w', e, hp', hm'⟩
+
 end StoneVerif.Order
